@@ -826,7 +826,7 @@ def lookup_global(st, nm):
 _MODULE_ATTRS = {
     ('socket', 'AF_INET'): ('int', 2), ('socket', 'AF_INET6'): ('int', 10),
     ('socket', 'AF_UNIX'): ('int', 1), ('socket', 'SOCK_STREAM'): ('int', 1),
-    ('socket', 'SOCK_DGRAM'): ('int', 2),
+    ('socket', 'SOCK_DGRAM'): ('int', 2), ('subprocess', 'PIPE'): ('int', -1),
 }
 
 
